@@ -159,7 +159,7 @@ class PfxRoot(Contract):
 class PfxMul(Contract):
     """Prefix.__mul__ / __rmul__: prefix*prefix, prefix*unit, prefix*number."""
     qual = "measured.Prefix.__mul__"
-    props = ("C02", "C11")
+    props = ("C01", "C02", "C11")
     inv = ("I_D", "I_P", "I_U")
     modifies = ("new:Prefix", "Prefix._known", "new:Unit", "Unit._known")
     types = {"other": [T_PFX, T_UNIT, ("other",)]}
@@ -209,3 +209,23 @@ def pointwise_d(c, o, d_new, d_old):
     return z3.ForAll([i], z3.Implies(z3.And(i >= 0, i < NDIM),
                                      z3.Select(ITup.iarr(c.fz("Dimension", d_new, "exponents")), i)
                                      == z3.Select(ITup.iarr(o.fz("Dimension", d_old, "exponents")), i)))
+
+
+def pval(c, p):
+    """ghost: the numeric factor base**exponent of a prefix (A4: real power, uninterpreted)"""
+    return rpowr(z3.ToReal(pbase(c, p)), pexp(c, p))
+
+
+@contract
+class PfxQuantify(Contract):
+    qual = "measured.Prefix.quantify"
+    props = ("C11",)
+    ret = ("num",)
+
+    def requires(self, c, a):
+        yield "wf-self", wf_pfx(c, a.self)
+
+    def ensures(self, c, a, r):
+        from pyvc.ops import to_num
+        yield "value", to_num(r).val == pval(c, a.self)
+        yield "decimal-only-if-exponent-is", z3.Implies(Num.nkind(c.f(a.self, "exponent")) != K_DEC, to_num(r).kind != K_DEC)
